@@ -452,6 +452,7 @@ define('FieldsWF(fields)',
 # width of the members after it, its mask covers exactly its own ghost_w bits, and it shares the run's Int
 define('laid_out(fields, j, p, I)',
        "isbits(fields, j) and FLD(fields, j).shift == wsum(fields, j + 1, p + 1)"
+       " and FLD(fields, j).shift >= 0 and FLD(fields, j).ghost_w >= 1"
        " and FLD(fields, j).mask == lshift(pow2(FLD(fields, j).ghost_w) - 1, FLD(fields, j).shift)"
        " and FLD(fields, j).I == I")
 
@@ -485,8 +486,117 @@ add(Contract(
         "forall(0, position + 1 - it, lambda j: implies(isbits(fields, j),"
         "       hasattr_bit_count(FLD(fields, j)) and FLD(fields, j).bit_count == FLD(fields, j).ghost_w))",
         "self.iam_last and fresh_since(I) and cumshift >= it",
-        "forall(0, position + 1 - it, lambda j: True) and not same(self.members, fields)",
-    ], kinds={'n': 'dyn', 'f': 'dyn'})},
+        "isnone(I.endianness) and not I.is_signed",
+        "not same(self.members, fields)",
+    ], kinds={'n': 'dyn', 'f': 'dyn'},
+        modifies=['self.members[*]', 'Bits.shift[*]', 'Bits.mask[*]', 'Bits.I[*]', 'Bits.bit_count[*]'])},
     modifies=['self.iam_first', 'self.iam_last', 'self.members', 'self.members[*]',
               'Bits.shift[*]', 'Bits.mask[*]', 'Bits.I[*]', 'Bits.bit_count[*]'],
     allocates=True, returns='list'))
+
+# ---------------------------------------------------------------- Ref with a run-time selector (C08)
+# The selector (self.prototype, a user callable) chooses a Field or a Packet for THIS reference:
+# a chosen field is (re)named after this reference, compiled, initialised and then parses at the
+# current position; a chosen packet is stored in this reference's slot and parses at the current position.
+add(Contract(
+    'role:FIELD._compile', role=True,
+    params={'f': 'ref:Field', 'position': 'int', 'fields': 'dyn', 'bisturi_conf': 'dyn'},
+    ensures=["f.field_name == old(f.field_name)"], raises={'OtherException*': []},
+    modifies=['f.*'], allocates=True, returns='dyn'))
+
+add(Contract(
+    'field:Ref._unpack_using_callable',
+    params={'self': 'ref:Ref', 'pkt': 'ref:Packet', 'raw': 'bytes', 'offset': 'int', 'k': 'kw'},
+    defaults={'offset': '0'},
+    requires=["offset >= 0", "k.has_ipp"],
+    ensures=["result >= 0", "g_sel_called",
+             # exactly one of: the chosen field parsed under this reference's name at this position,
+             # or the chosen packet was stored in this reference's slot and parsed at this position
+             "g_field_parsed or g_pkt_parsed",
+             # (a selector answering the enclosing packet itself is excluded: its own parse rewrites the slot)
+             "implies(g_pkt_parsed and not same(g_sel, pkt), hasslot(pkt, self.field_name) and same(slot(pkt, self.field_name), g_sel))"],
+    raises={'PacketError': [], 'AssertionError': ["not isinst(g_sel, 'Field') and not isinst(g_sel, 'Packet')"],
+            'TypeError': ["not iscallable(self.prototype)"],
+            'OtherException*': []},
+    call_ghost={'prototype': 'g_sel'},
+    ghost_init={'g_sel': 'None', 'g_sel_called': 'False', 'g_field_parsed': 'False', 'g_pkt_parsed': 'False',
+                'g_named': 'False', 'g_inited': 'False'},
+    ghost_kinds={'g_sel': 'dyn', 'g_sel_called': 'bool', 'g_field_parsed': 'bool', 'g_pkt_parsed': 'bool',
+                 'g_named': 'bool', 'g_inited': 'bool'},
+    call_asserts={
+        'FIELD._compile': ["same(arg_f, g_sel)", "arg_f.field_name == self.field_name", "arg_position == self.position"],
+        'FIELD.init': ["same(arg_f, g_sel)", "arg_f.field_name == self.field_name", "g_named", "same(arg_packet, pkt)"],
+        'FIELD.unpack': ["same(arg_f, g_sel)", "arg_f.field_name == self.field_name", "g_named and g_inited",
+                         "same(arg_pkt, pkt) and arg_raw == raw and arg_offset == offset"],
+        'Packet.unpack_impl': ["same(arg_self, g_sel)", "arg_raw == raw and arg_offset == offset",
+                                      "hasslot(pkt, self.field_name) and same(slot(pkt, self.field_name), g_sel)"],
+    },
+    call_effects={'FIELD._compile': {'g_named': 'True'}, 'FIELD.init': {'g_inited': 'True'},
+                  'FIELD.unpack': {'g_field_parsed': 'True'}, 'Packet.unpack_impl': {'g_pkt_parsed': 'True'}},
+    # the chosen object is written too (finding F3 of DESIGN.md: a selector handing out shared Field objects
+    # makes this reference write into them)
+    modifies=['slot(pkt, *)', "asref(cb(self.prototype, offset=offset, pkt=pkt, raw=raw, k=k), 'Field').*",
+              "slot(asref(cb(self.prototype, offset=offset, pkt=pkt, raw=raw, k=k), 'Packet'), *)"],
+    allocates=True, returns='int'))
+
+add(Contract(
+    'field:Ref._pack_with_callable',
+    params={'self': 'ref:Ref', 'pkt': 'ref:Packet', 'fragments': 'ref:Fragments', 'k': 'kw'},
+    requires=["WF(fragments)", "fragments.current_offset >= 0", "k.has_ipp", "hasslot(pkt, self.field_name)"],
+    ensures=["WF(fragments)", "fragments.current_offset >= 0",
+             # a packet value serialises itself; any other value is serialised by the field the selector
+             # chooses, under this reference's name
+             "g_pkt_packed == isinst(old(slot(pkt, self.field_name)), 'Packet')",
+             "g_pkt_packed or g_field_packed"],
+    raises={'PacketError': ["WF(fragments)"],
+            'AssertionError': ["not iscallable(self.prototype)"],
+            'NotImplementedError': ["not isinst(old(slot(pkt, self.field_name)), 'Packet')", "g_sel_called",
+                                    "not isinst(g_sel, 'Field')"],
+            'OtherException*': []},
+    call_ghost={'prototype': 'g_sel'},
+    ghost_init={'g_sel': 'None', 'g_sel_called': 'False', 'g_field_packed': 'False', 'g_pkt_packed': 'False',
+                'g_named': 'False'},
+    ghost_kinds={'g_sel': 'dyn', 'g_sel_called': 'bool', 'g_field_packed': 'bool', 'g_pkt_packed': 'bool', 'g_named': 'bool'},
+    call_asserts={
+        'FIELD._compile': ["same(arg_f, g_sel)", "arg_f.field_name == self.field_name", "arg_position == self.position"],
+        'FIELD.pack': ["same(arg_f, g_sel)", "arg_f.field_name == self.field_name", "g_named",
+                       "same(arg_pkt, pkt) and same(arg_fragments, fragments)"],
+        'Packet.pack_impl': ["same(arg_self, old(slot(pkt, self.field_name)))", "same(arg_fragments, fragments)"],
+    },
+    call_effects={'FIELD._compile': {'g_named': 'True'}, 'FIELD.pack': {'g_field_packed': 'True'},
+                  'Packet.pack_impl': {'g_pkt_packed': 'True'}},
+    modifies=['slot(pkt, *)', "asref(cb(self.prototype, fragments=fragments, packing=True, pkt=pkt, k=k), 'Field').*",
+              "slot(asref(slot(pkt, self.field_name), 'Packet'), *)"] + FRAG_MOD,
+    allocates=True, returns='dyn'))
+
+# ---------------------------------------------------------------- Ref.init (C19): the default of a reference
+# what Prototype.__init__ establishes (its third postcondition)
+define('ProtoWF(v)',
+       "implies(isinst(v, 'Prototype'), asref(v, 'Prototype').clone == 'packet:Prototype._clone_from_pickle'"
+       " or asref(v, 'Prototype').clone == 'packet:Prototype._clone_from_live_obj')")
+add(Contract(
+    'field:Ref.init',
+    params={'self': 'ref:Ref', 'packet': 'ref:Packet', 'defaults': 'conf'},
+    requires=["ProtoWF(self.prototype)", "ProtoWF(self.default)"],
+    ensures=[
+        "hasslot(packet, self.field_name)",
+        "implies(self.field_name in old(defaults), same(slot(packet, self.field_name), old(defaults)[self.field_name]))",
+        # a reference to a packet class (or a default given as a packet): every new packet gets its own
+        # fresh copy of the prototype, sharing nothing mutable with the declaration or with other packets
+        "implies(not (self.field_name in old(defaults)) and (isinst(self.prototype, 'Prototype') or isinst(self.default, 'Prototype')),"
+        "        isprim(slot(packet, self.field_name)) or deep_fresh(slot(packet, self.field_name)))",
+    ],
+    raises={'AssertionError': ["not isinst(self.prototype, 'Prototype') and not iscallable(self.prototype)"],
+            'OtherException*': []},       # unpickling the prototype failed
+    modifies=['slot(packet, self.field_name)'], allocates=True))
+
+# ---------------------------------------------------------------- Bits.init (C19, C07): the run's shared integer starts at 0
+add(Contract(
+    'field:Bits.init',
+    params={'self': 'ref:Bits', 'packet': 'ref:Packet', 'defaults': 'conf'},
+    ensures=_init_posts + [
+        "implies(not (self.field_name in defaults), same(slot(packet, self.field_name), self.default))",
+        "implies(self.iam_first and self.I.field_name != self.field_name,"
+        "        hasslot(packet, self.I.field_name) and isint(slot(packet, self.I.field_name))"
+        "        and intval(slot(packet, self.I.field_name)) == 0)"],
+    modifies=['slot(packet, self.field_name)', 'slot(packet, self.I.field_name)']))
